@@ -66,6 +66,7 @@ func main() {
 		solver   = flag.String("solver", "z3", "z3|z3-new|cvc5")
 		noEvid   = flag.Bool("no-evidence", false, "do not write the evidence file (debug)")
 		verbose  = flag.Bool("v", false, "verbose")
+		maxPaths = flag.Int("maxpaths", 0, "override the path bound (debug)")
 	)
 	flag.Parse()
 	if t := os.Getenv("VERIF_TIER"); t != "" && !flagSet("tier") {
@@ -221,6 +222,9 @@ func main() {
 				InjectiveSprintf: true, Solver: *solver, LogSMT: *logSMT, Known: known, Tier: *tier, Seed: seed, DecodeMaxLen: 2, ParamMaxLen: 2}
 			if cc.MaxPaths > 0 {
 				c.MaxPaths = cc.MaxPaths
+			}
+			if *maxPaths > 0 {
+				c.MaxPaths = *maxPaths
 			}
 			if cc.TimeoutMs > 0 {
 				c.TimeoutMs = cc.TimeoutMs
